@@ -15,7 +15,7 @@
     failures (C19) are not modelled here.  The footer encoder is a section variable (the proofs assume its
     round trip, the extraction instantiates Thrift/ParquetMetaModel.write_file_metadata). *)
 From Coq Require Import NArith ZArith List Bool.
-From Carquet Require Import Base.Res Gen.Enums_gen Enc.DeltaBits
+From Carquet Require Import Base.Res Gen.Enums_gen Gen.Writer_gen Enc.DeltaBits
      Writer.TableSpec Writer.PageWriterModel Writer.ColumnWriterModel.
 Import ListNotations.
 Local Open Scope N_scope.
@@ -75,7 +75,8 @@ Definition OK : Z := E_CARQUET_OK.
 Definition codec_tag (codec : Z) : Z :=
   if Z.eqb codec E_CARQUET_COMPRESSION_LZ4 then E_CARQUET_COMPRESSION_LZ4_RAW else codec.
 
-Definition carquet_name : list N := [67; 97; 114; 113; 117; 101; 116].     (* "Carquet" *)
+Definition carquet_name : list N := Writer_DEFAULT_CREATED_BY.            (* "Carquet" *)
+Definition footer_version : N := Writer_FOOTER_VERSION.                   (* metadata->version = 2 *)
 
 Fixpoint set_nth {A} (n : nat) (x : A) (l : list A) : list A :=
   match l with
@@ -148,7 +149,7 @@ Section FileWriter.
   Definition fw_new_row_group (w : fw) : fw := flush_row_group (ensure_header w).
 
   Definition metadata_of (w : fw) : file_meta :=
-    mkfm 2 (f_schema w) (f_total_rows w) (f_groups w)
+    mkfm footer_version (f_schema w) (f_total_rows w) (f_groups w)
          (match o_created_by (f_opts w) with Some s => s | None => carquet_name end).
 
   (** carquet_writer_close: the complete file *)
